@@ -423,7 +423,144 @@ func (c *c19Run) op(f []string) string {
 	return "bad-op"
 }
 
+// burst <n>: one client opens n streams at once and writes a tag on each while nobody accepts; then the application accepts:
+// every stream surfaces exactly once, with its tag - also when more streams are pending than the backlog and the session's
+// accept queue (1024) hold together
+func c19Burst(f []string) vResult {
+	res := vResult{noModel: true, out: []string{"done"}, tags: []string{"burst-of-streams"}}
+	n := vAtoi(f[1])
+	if n < 1 || n > 1500 {
+		res.out = []string{"bad-op"}
+		return res
+	}
+	internalLogger = &logger{"", io.Discard, 3}
+	k := atomic.AddUint64(&c19Seq, 1)
+	prefix := fmt.Sprintf("/dev/shm/verif_c19b_%d_%d", os.Getpid(), k)
+	path := fmt.Sprintf("/tmp/verif_c19b_%d_%d.sock", os.Getpid(), k)
+	os.Remove(path)
+	raw, err := net.Listen("unix", path)
+	if err != nil {
+		res.specFail, res.key = "listen: "+err.Error(), "setup"
+		return res
+	}
+	ln := newListener(raw, 8)
+	defer os.Remove(path)
+	var cs *Session
+	for attempt := 0; attempt < 5; attempt++ {
+		conn, derr := net.Dial("unix", path)
+		if derr != nil {
+			err = derr
+			break
+		}
+		// room for one slice per stream: a session that has to fall back to the connection declares itself overloaded
+		// (circuit breaker: OpenStream is refused for 30 s), which is not what this scenario is about
+		ccfg := c12Config(fmt.Sprintf("%s_r%d", prefix, attempt), MemMapTypeMemFd)
+		ccfg.ShareMemoryBufferCap = 32 << 20
+		ccfg.QueueCap = 4096 // ... and room in the io queue for one element per stream while the dispatcher waits for Accept
+		if cs, err = newSession(ccfg, conn, true); err == nil {
+			break
+		}
+		conn.Close()
+		time.Sleep(200 * time.Millisecond)
+	}
+	if err != nil || cs == nil {
+		ln.Close()
+		res.specFail, res.key = fmt.Sprintf("client session: %v", err), "setup"
+		return res
+	}
+	done := make(chan string, 1)
+	var wrote int64 // streams whose Write returned (4, nil): exactly these must surface
+	go func() {
+		for i := 0; i < n; i++ {
+			st, err := cs.OpenStream()
+			if err != nil {
+				done <- fmt.Sprintf("OpenStream %d: %v", i, err)
+				return
+			}
+			st.SetDeadline(time.Now().Add(20 * time.Second))
+			tag := []byte{byte(i), byte(i >> 8), 0xC1, 0x9B}
+			wn, err := st.Write(tag)
+			if err != nil {
+				// back-pressure is allowed to fail a Write (it then delivered nothing); stop here
+				n = i
+				break
+			}
+			if wn != 4 {
+				done <- fmt.Sprintf("Write on stream %d = (%d, nil)", i, wn)
+				return
+			}
+			atomic.AddInt64(&wrote, 1)
+		}
+		done <- ""
+	}()
+	// the application is slow: it starts accepting only after a while (the client may still be opening streams)
+	time.Sleep(300 * time.Millisecond)
+	seen := map[int]int{}
+	got := 0
+	deadline := time.Now().Add(25 * time.Second)
+	for (got < n || atomic.LoadInt64(&wrote) > int64(got)) && time.Now().Before(deadline) {
+		type ac struct {
+			c   net.Conn
+			err error
+		}
+		ch := make(chan ac, 1)
+		go func() { c, err := ln.Accept(); ch <- ac{c, err} }()
+		var a ac
+		select {
+		case a = <-ch:
+		case <-time.After(3 * time.Second):
+			// nothing more surfaces
+			deadline = time.Now()
+			continue
+		}
+		if a.err != nil {
+			res.specFail, res.key = "Accept: "+a.err.Error(), "accept-error"
+			break
+		}
+		a.c.SetDeadline(time.Now().Add(10 * time.Second))
+		b := make([]byte, 4)
+		if _, err := io.ReadFull(a.c, b); err != nil || b[2] != 0xC1 || b[3] != 0x9B {
+			res.specFail, res.key = fmt.Sprintf("conn %d: reading the tag: %x %v", got, b, err), "echo-lost"
+			break
+		}
+		seen[int(b[0])|int(b[1])<<8]++
+		got++
+		a.c.Close()
+	}
+	werr := ""
+	select {
+	case werr = <-done:
+	case <-time.After(10 * time.Second):
+		werr = "the client is still blocked opening / writing streams"
+	}
+	if res.specFail == "" && werr != "" {
+		res.specFail, res.key = "client side: "+werr, "write-contract"
+	}
+	// S (C19): every stream a client opens surfaces exactly once as a net.Conn
+	if res.specFail == "" {
+		dup := 0
+		for _, v := range seen {
+			if v > 1 {
+				dup++
+			}
+		}
+		if w := int(atomic.LoadInt64(&wrote)); len(seen) != w || dup > 0 {
+			n = w
+			res.specFail = fmt.Sprintf("the client opened %d streams and wrote a tag on each (every Write returned 4, nil); Accept returned %d conns with %d distinct tags (%d tags more than once); %d streams never surfaced", n, got, len(seen), dup, n-len(seen))
+			res.key = "stream-never-surfaces"
+		}
+	}
+	ln.Close()
+	c12CloseSession(cs)
+	return res
+}
+
 func c19Exec(ops []string) vResult {
+	if len(ops) == 1 && strings.HasPrefix(ops[0], "burst ") {
+		if f := vFields(ops[0]); len(f) == 2 {
+			return c19Burst(f)
+		}
+	}
 	internalLogger = &logger{"", io.Discard, 3}
 	n := atomic.AddUint64(&c19Seq, 1)
 	c := &c19Run{tags: map[string]bool{}, seen: map[string]bool{}}
@@ -477,6 +614,9 @@ func c19Exec(ops []string) vResult {
 }
 
 func c19Gen(r *rand.Rand, tier string, idx int) []string {
+	if idx%40 == 17 {
+		return []string{fmt.Sprintf("burst %d", []int{5, 40, 1040, 1200}[r.Intn(4)])}
+	}
 	ops := []string{"dial"}
 	nc, nconn := 1, 0
 	opened := 0
